@@ -5,7 +5,8 @@ operands with which next level, on which tokens, building which node with which 
 order), agreement of the operator tables in lexer / parser / nodes / compiler / sandbox
 (round trip symbol -> token -> node class -> emitted operator -> fold function), the
 attribute-vs-item lookup order of Environment.getattr/getitem and their sandbox overrides,
-and the result name of compile_expression.  Not decided: values of expressions.
+and the result name of compile_expression.  Also: (skeletons) an emitted call passes every operand of the call node on every path.  
+Not decided: values of expressions.
 """
 
 from __future__ import annotations
